@@ -5,19 +5,20 @@
 
 package main
 
-// The request body written for the bastion is "old 0\n", one base64 line per proof hash, a blank line, the checkpoint.
+// The request body written for the bastion is "old <oldSize>\n", one base64 line per proof hash, a blank line, the checkpoint.
 //@ func (*bastionClient).Update
 //@   returns (out, err)
 //@   requires b != nil && b.httpClient != nil
 //@   modifies req_method, req_url, req_body, req_ctx, n_do, do_method, do_url, do_body, do_err, do_status, do_final_method, do_resp_body, do_ctx, n_noctx, n_bodies_open, body_open, rd_buf, rdr_bytes
 //@   ensures[C11.wr] n_do <= old(n_do) + 1 && (n_do == old(n_do) + 1 ==> do_method == "POST" && do_url == b.url)
-//@   ensures[C11.wr] n_do == old(n_do) + 1 ==> str(do_body) == cat2("old 0\n" ++ encPre(rowOf(proof), offOf(proof), len(proof)), "\n" ++ str(newCP))
+//@   let P := "old " ++ fmt_du(oldSize) ++ "\n"
+//@   ensures[C11.wr] n_do == old(n_do) + 1 ==> str(do_body) == cat2(cat2(P, encPre(rowOf(proof), offOf(proof), len(proof))), "\n" ++ str(newCP))
 //@   // the request carries the caller's context: a bastion that never answers cannot hold the feed cycle past its deadline
 //@   ensures[C13.ctx,C19.ctx] n_do == old(n_do) + 1 ==> do_ctx == ctx
 //@   ensures[C13.ctx,C19.ctx] ctx != noCtx() && ctx != todoCtx() ==> n_noctx == old(n_noctx)
 //@   hint encPre_0(rowOf(proof), offOf(proof))
-//@   hint scat_unit("old 0\n")
+//@   hint scat_unit("old " ++ fmt_du(oldSize) ++ "\n")
 //@   hint#1 encPre_s(rowOf(proof), offOf(proof), $i + 1)
-//@   hint#1 scat_assoc("old 0\n", encPre(rowOf(proof), offOf(proof), $i), b64enc(str(proof[$i])) ++ "\n")
-//@   invariant#1 0 <= $i && $i <= len(proof) && body == "old 0\n" ++ encPre(rowOf(proof), offOf(proof), $i)
+//@   hint#1 scat_assoc("old " ++ fmt_du(oldSize) ++ "\n", encPre(rowOf(proof), offOf(proof), $i), b64enc(str(proof[$i])) ++ "\n")
+//@   invariant#1 0 <= $i && $i <= len(proof) && body == cat2("old " ++ fmt_du(oldSize) ++ "\n", encPre(rowOf(proof), offOf(proof), $i))
 //@   decreases#1 len(proof) - $i
